@@ -1,4 +1,4 @@
-\* TODO-KNOWN-FINDING C41-gap-after-reorg: searches the model for states violating the strict
+\* KNOWN-FINDING (open, known_findings.json) C41-gap-after-reorg: searches the model for states violating the strict
 \* "pending is gapless" property and prints the behaviours leading there (tag GAP).
 SPECIFICATION MCSpec
 CONSTANTS Accts = {"a1"}
